@@ -1,0 +1,26 @@
+//go:build verif
+
+// Contracts for govc (see /verif/DESIGN.md). Comment-only file: no executable code.
+
+package module
+
+//@ property C11
+// Iteration over a transaction list does not touch the state the verified functions talk about.
+//@ func (l TransactionList) Iterator() (it)
+//@   iface
+//@   trusted
+//@   pure
+//@   ensures it != nil
+//@ func (it TransactionIterator) Has() (r)
+//@   iface
+//@   trusted
+//@   pure
+//@ func (it TransactionIterator) Next() (err)
+//@   iface
+//@   trusted
+//@   pure
+//@ func (it TransactionIterator) Get() (tx, idx, err)
+//@   iface
+//@   trusted
+//@   pure
+//@   ensures err == nil ==> tx != nil
